@@ -36,41 +36,54 @@ ASSUMPTIONS = [
     "tile_dim is judged only when the tile divides the bound (documented domain); rotate only for 1 <= dim <= num_dims; clear_unused_dims only "
     "without custom bounds; collections whose patterns have different boxes are compared per pattern.",
     "A search that raises / yields nothing / exceeds the per-case watchdog is a rejection or inconclusive-for-that-case (counted), never a violation.",
-    "Inside one search at most 60000 box points are spent on the rotate/tile_dim contracts (the rest is counted as skipped_budget); every yielded "
+    "Inside one search at most 24000 box points are spent on the rotate/tile_dim contracts (the rest is counted as skipped_budget); every yielded "
     "schedule up to the cap is always checked.",
 ]
 TIERS = {
-    "quick": {"shards": 16, "cases": 1200, "timeout": 600},
-    "thorough": {"shards": 16, "cases": 36000, "timeout": 7200},
+    "quick": {"shards": 16, "cases": 800, "timeout": 600},
+    "thorough": {"shards": 16, "cases": 24000, "timeout": 7200},
 }
 FLOORS = {
+    # monitor-side reach only (contract evaluations, cases pushed through the real code); sized at <= 1/3 of the quick counters
     "quick": {
-        "programs": 3000,
-        "compared": 4000,
-        "distinct_nontrivial": 400,
-        "eval:yield_img": 3000,
-        "eval:yield_img_alternative(not-first)": 1000,
-        "eval:scheduler_result_img": 500,
-        "eval:Schedule.rotate": 5000,
-        "eval:Schedule.tile_dim": 3000,
-        "eval:Schedule.add_dim": 500,
-        "eval:PatternCollection.clear_unused_dims": 500,
-        "eval:PatternCollection.canonicalize": 500,
-        "eval:SchedulePattern.rotate": 1000,
-        "eval:SchedulePattern.tile_dim": 1000,
-        "eval:AccessPattern.canonicalize": 500,
-        "eval:pass_img": 100,
+        "programs": 2500,
+        "compared": 30000,
+        "distinct_nontrivial": 1500,
+        "eval:yield_img": 8000,
+        "eval:yield_img_alternative(not-first)": 5000,
+        "eval:yield_img_after_tiling": 5000,
+        "eval:tile_guard_in_search": 4000,
+        "eval:scheduler_result_img": 1500,
+        "eval:scheduler_result_img_schedule_idx": 300,
+        "eval:Schedule.rotate": 40000,
+        "eval:Schedule.tile_dim": 10000,
+        "eval:Schedule.add_dim": 1700,
+        "eval:PatternCollection.clear_unused_dims": 1700,
+        "eval:PatternCollection.canonicalize": 2000,
+        "eval:SchedulePattern.rotate": 2000,
+        "eval:SchedulePattern.tile_dim": 3500,
+        "eval:SchedulePattern.add_dim": 1200,
+        "eval:AccessPattern.canonicalize": 1200,
+        "eval:pass_img": 300,
     },
     "thorough": {
-        "programs": 90000,
-        "compared": 120000,
-        "distinct_nontrivial": 3000,
-        "eval:yield_img": 90000,
-        "eval:yield_img_alternative(not-first)": 30000,
-        "eval:scheduler_result_img": 15000,
-        "eval:Schedule.rotate": 150000,
-        "eval:Schedule.tile_dim": 90000,
-        "eval:pass_img": 3000,
+        "programs": 75000,
+        "compared": 900000,
+        "distinct_nontrivial": 10000,
+        "eval:yield_img": 240000,
+        "eval:yield_img_alternative(not-first)": 150000,
+        "eval:yield_img_after_tiling": 150000,
+        "eval:tile_guard_in_search": 120000,
+        "eval:scheduler_result_img": 45000,
+        "eval:Schedule.rotate": 1200000,
+        "eval:Schedule.tile_dim": 300000,
+        "eval:Schedule.add_dim": 50000,
+        "eval:PatternCollection.clear_unused_dims": 50000,
+        "eval:PatternCollection.canonicalize": 60000,
+        "eval:SchedulePattern.rotate": 60000,
+        "eval:SchedulePattern.tile_dim": 100000,
+        "eval:AccessPattern.canonicalize": 36000,
+        "eval:pass_img": 9000,
     },
 }
 
@@ -184,10 +197,24 @@ def gen_case(rng, i):
     return G.gen_pass(rng)
 
 
+MAX_RECORDED_PER_KIND = 3  # per shard; further occurrences are only counted (a broken tree fires thousands of times)
+
+
+def record(res, v, per_kind):
+    k = v["kind"]
+    per_kind[k] = per_kind.get(k, 0) + 1
+    R.bump(res, "monitor_fired:" + k)
+    if per_kind[k] <= MAX_RECORDED_PER_KIND:
+        R.violation(res, v["kind"], v["detail"], v["case"], attribute(v))
+    else:
+        R.bump(res, "violations_counted_not_recorded")
+
+
 def run_shard(seed, shard, n_cases, tier):
     res = R.new_result()
     rng = random.Random(seed)
     CS = setup()
+    per_kind = {}
     for i in range(n_cases):
         case = gen_case(rng, i)
         seen_kinds = set()
@@ -195,7 +222,7 @@ def run_shard(seed, shard, n_cases, tier):
             if v["kind"] in seen_kinds:
                 continue  # one record per kind and case
             seen_kinds.add(v["kind"])
-            R.violation(res, v["kind"], v["detail"], v["case"], attribute(v))
+            record(res, v, per_kind)
         if shard == 0 and i in (0, 6, 9):
             R.sample(res, {k: case[k] for k in case if k != "text"} if case["form"] != "pass" else {"form": "pass", "kind": case["kind"], "text": case["text"]})
     for k, v in CS.ST.counters.items():
@@ -206,6 +233,11 @@ def run_shard(seed, shard, n_cases, tier):
 
 
 def replay(case):
+    """Re-run exactly one recorded case against the current tree; one entry per violation kind."""
     res = R.new_result()
-    vs = run_case(case, res)
-    return [{"kind": v["kind"], "detail": v["detail"]} for v in vs]
+    out, seen = [], set()
+    for v in run_case(case, res):
+        if v["kind"] not in seen:
+            seen.add(v["kind"])
+            out.append({"kind": v["kind"], "detail": v["detail"]})
+    return out
